@@ -8,7 +8,7 @@ os.makedirs(dst, exist_ok=True)
 shutil.copy(os.path.join(src, 'patch.diff'), os.path.join(dst, 'patch.diff'))
 for f in glob.glob(os.path.join(src, '*_test.go')):
     # stored with a .txt suffix so that nothing under /verif is picked up as Go source by accident
-    shutil.copy(f, os.path.join(dst, os.path.basename(f) + '.txt'))
+    shutil.copy(f, os.path.join(dst, os.path.basename(f)))
 if os.path.exists(os.path.join(src, 'notes.md')):
     shutil.copy(os.path.join(src, 'notes.md'), os.path.join(dst, 'notes.md'))
 meta = {
